@@ -71,7 +71,7 @@ func (p *c18) Case(i int) fw.Case {
 }
 
 type walkEv struct {
-	n   ast.Node // nil for Visit(nil)
+	n ast.Node // nil for Visit(nil)
 }
 
 type c18Visitor struct {
